@@ -399,6 +399,29 @@ def oracle_noise_exponents(rng):
             if abs(lhs - rhs) > 1e-6 * (1 + abs(lhs)):
                 return ('s(x) h(x) = %r but s.c . (C G_L(x)) = %r at x = %s for the coefficient vector %s; exponents carry noise %g / %g beyond the 7th decimal; C=%s'
                         % (lhs, rhs, x.tolist(), coeffs.tolist(), eps_h, eps_s, C.tolist())), None
+    # polynomials whose float exponents sit a hair BELOW an integer (0.3 / 0.1 = 2.9999999999999996): the monomial is x^3, in every argument
+    three = 0.3 / 0.1
+    hp = Polynomial(np.array([[three, 1.0], [2.0, 1.0], [0.0, 0.0]]), np.array([3.0, 2.0, 1.0]))
+    refp = np.array([[0.0, 0.0], [1.0, 1.0], [2.0, 1.0], [3.0, 1.0]])
+    rcv = np.asarray(sc.relative_coeff_vector(hp, refp), dtype=float).tolist()
+    if rcv != [1.0, 0.0, 2.0, 3.0]:
+        return ('relative_coeff_vector of 3 x0^3 x1 + 2 x0^2 x1 + 1 (the exponent 3 given as the float 0.3/0.1) against rows (0,0),(1,1),(2,1),(3,1) is %s; '
+                'expected [1, 0, 2, 3]' % rcv), None
+    sp_ = Polynomial(np.array([[1.0, 0.0], [0.0, 6.0 * 0.1 / 0.2 - 2.0]]), np.array([1.0, 1.0]))      # x0 + x1 (exponent 1 computed in floating point)
+    Lp = Polynomial(sp_.alpha, np.ones(sp_.m)) * Polynomial(hp.alpha, np.abs(hp.c)) + Polynomial(np.array([[5.0, 5.0]]), np.array([1.0]))
+    try:
+        Cp = np.asarray(sc.moment_reduction_array(sp_, hp, Lp), dtype=float)
+    except RuntimeError as e:
+        return 'moment_reduction_array raised %r for polynomials whose exponents were computed in floating point' % (e,), None
+    for _ in range(3):
+        coeffs = np.array([float(rng.randint(-3, 3)) for _ in range(sp_.m)])
+        xv = np.array([rng.choice([-1.5, -0.5, 0.5, 2.0]), rng.choice([-2.0, 0.5, 1.5])])
+        GL = np.prod(np.power(xv, Lp.alpha), axis=1)
+        lhs = float((coeffs @ np.prod(np.power(xv, sp_.alpha), axis=1)) * (3 * xv[0] ** 3 * xv[1] + 2 * xv[0] ** 2 * xv[1] + 1))
+        rhs = float(coeffs @ (Cp @ GL))
+        if abs(lhs - rhs) > 1e-8 * (1 + abs(lhs)):
+            return ('polynomials with exponents computed in floating point (0.3/0.1 for 3): s(x) h(x) = %r but s.c . (C G_L(x)) = %r at x = %s for the coefficient vector %s'
+                    % (lhs, rhs, xv.tolist(), coeffs.tolist())), None
     return None, None
 
 
